@@ -10,7 +10,7 @@ import (
 const ruleText = "A case is a history of syncs of one publisher on one fresh Subscriber, each sync with its own per-request fault script; after every sync: result, events, latest-sync, store keys, request log (address, with/without IPNI path, resource), hook calls. " +
 	"Worlds: plain (external HTTP server, no libp2p-HTTP discovery) with address lists [a], [a,b], [a,dead], [dead,a], [b,a]; legacy (serves no IPNI path) [a], [a,b]; p2phttp (libp2phttp over HTTP through a reverse proxy, discovery) [a], [a,b]; stream (two loopback libp2p hosts) [a], [a,b]. " +
 	"single: every fault kind (500, 404, 403, closed connection, TCP reset / stream reset, corrupt body, truncated body, stalled header, stalled body, context cancellation) at EVERY request index of the sync, for heads 1..4, explicit and announce-triggered, segment depth off/1/2, also with a stop position inside the chain and a pre-stored block; followed by a fault-free retry of the same head (and for a subset a third sync in the other mode). " +
-	"pair-same / pair-seq: two faults in one sync, or in two consecutive syncs, then the retry (all pairs for heads <= 3 in thorough, a seeded sample in quick). hook: FailSync at every hook call index. disc: the discovery request fails. addrchange: the address list changes between syncs (syncer re-creation, sorted-address quirk). random: seeded histories of 3..6 syncs mixing everything. " +
+	"pair-same / pair-seq: two faults in one sync, or in two consecutive syncs, then the retry (thorough: all pairs for heads <= 3, pairs that include a stalled response 1 in 12; quick: a seeded sample). hook: FailSync at every hook call index. disc: the discovery request fails. addrchange: the address list changes between syncs (syncer re-creation, sorted-address quirk). random: seeded histories of 3..6 syncs mixing everything. " +
 	"non-trivial = some sync of the history failed AND a later successful sync had to send requests"
 
 type wcfg struct {
@@ -259,15 +259,21 @@ func generate(c *vlib.Ctx) []*Hist {
 							}
 							for i := 0; i < n; i++ {
 								for j := 0; j <= n+1; j++ {
-									if !thorough {
-										// quick: a seeded sample, thinner where stalls make it slow
-										den := 30
+									// quick: a seeded sample, thinner where stalls make it slow;
+									// thorough: every pair, except that pairs with a stall (each
+									// stall costs the client timeout) are a 1-in-12 sample
+									den := 30
+									if stall > 0 {
+										den = 400
+									}
+									if thorough {
+										den = 1
 										if stall > 0 {
-											den = 400
+											den = 12
 										}
-										if rp.Intn(den) != 0 {
-											continue
-										}
+									}
+									if den > 1 && rp.Intn(den) != 0 {
+										continue
 									}
 									cfg := fd.Config{Seg: seg}
 									if j > i {
